@@ -389,6 +389,6 @@ pub fn run(r: &mut Runner) {
         groups.extend(crate::hist::binary_groups(&[Op::log], &[([81.0, 0.0], [3.0, 1e-17]), ([100.0, 1e-15], [10.0, 0.0]), ([7.0, 0.0], [2.0, -1e-17])]));
         crate::hist::explore(r, "histories: ln/log2/log10/ln_1p/log", &groups, 3, &hist_judge, 14u64 << 55);
         // cross-family histories: the same judged calls, preceded by every other public function on the same operands
-        crate::hist::explore_mixed(r, "cross-family histories: any public call, then ln/log2/log10/ln_1p/log", &groups[..groups.len().min(2)], 2, &hist_judge, (14u64 << 55) + (1u64 << 53));
+        crate::hist::explore_mixed(r, "cross-family histories: any public call, then ln/log2/log10/ln_1p/log", &groups, 2, &hist_judge, (14u64 << 55) + (1u64 << 53));
     }
 }
